@@ -49,6 +49,11 @@ def validateContinuous (start stop nPoints : PyVal) (repaired : Bool := false) :
   let okFinite := !repaired || ((!okStart || start.toFloat.isFinite) && (!okStop || stop.toFloat.isFinite))
   okStart && okStop && okN && okOrder && okFinite
 
+/-- `LogspaceGrid`: the continuous-grid validation plus (repair F3) a strictly positive start -/
+def validateLogspace (start stop nPoints : PyVal) (repaired : Bool := true) : Bool :=
+  validateContinuous start stop nPoints repaired &&
+    (!repaired || match start.toFloat with | .fin q => decide (0 < q) | _ => false)
+
 /-- a dataclass field value: default absent → None -/
 abbrev FieldVal := PyVal
 
